@@ -586,14 +586,28 @@ pub fn describe_case<P: Prop>(tier: Tier, lane: &str, cseed: u64) -> Value {
 /// In-process runner used under interpreters / sanitizers where spawning worker processes and
 /// writing files is not wanted (Miri): runs the cases `shard, shard+nshards, ...` below `cases` of
 /// `lane` and prints one JSON line per violation and a final summary line to stdout.
-pub fn run_inprocess<P: Prop>(tier: Tier, seed: u64, lane: &str, shard: u64, nshards: u64, cases: u64) -> i32 {
+pub fn run_inprocess<P: Prop>(
+    tier: Tier,
+    seed: u64,
+    lane: &str,
+    shard: u64,
+    nshards: u64,
+    cases: u64,
+    budget_s: Option<u64>,
+) -> i32 {
     install_quiet_panic_hook();
+    // under an interpreter the cost per case varies by orders of magnitude: stop starting new cases
+    // after the budget and report what was run (decides only how much is explored)
+    let t0 = std::time::Instant::now();
     let mut evaluations = 0u64;
     let mut nontrivial = 0u64;
     let mut violations = 0u64;
     let mut hashes: Vec<String> = vec![];
     let mut idx = shard;
     while idx < cases {
+        if budget_s.is_some_and(|b| t0.elapsed().as_secs() >= b) {
+            break;
+        }
         let cseed = case_seed(seed, P::ID, lane, idx);
         let mut rng = Rng::seed_from_u64(cseed);
         let case = gen_case::<P>(&mut rng, tier, lane);
